@@ -141,12 +141,13 @@ LEAVES = [['var', 'x'], ['var', 'y'], ['var', 'z']]
 
 def idx_palette(L):
     if L == 1:
-        return [['int', 0], ['int', -1], ['list', [0, 0]], ['slice', None, None, None], ['imat', [0]]]
+        return [['int', 0], ['int', -1], ['list', [0, 0]], ['slice', None, None, None], ['imat', [0]], ['list', [-1, 0, -1]]]
     if L == 2:
         return [['int', 0], ['int', -1], ['int', 1], ['int', -2], ['slice', None, None, -1], ['slice', 1, None, None],
-                ['list', [1, 0, 1]], ['imat', [-1, 0]]]
+                ['list', [1, 0, 1]], ['imat', [-1, 0]], ['list', [-1]], ['list', [-2, -1, 0]], ['imat', [-1, -2, -1]]]
     return [['int', 1], ['int', -1], ['int', -L], ['slice', None, None, 2], ['slice', None, None, -1],
-            ['slice', 1, None, None], ['list', [L - 1, 0]], ['list', [0, -1, -1]], ['imat', [1]]]
+            ['slice', 1, None, None], ['list', [L - 1, 0]], ['list', [0, -1, -1]], ['imat', [1]], ['list', [-1]],
+            ['list', [-L, 1]], ['imat', [-1, -2]]]
 
 
 def _maxconsts(seed, pal):
